@@ -362,4 +362,86 @@ Proof.
     + cbn [bind]. destruct (f_nulldummy fl && negb (is_nil dummy)); reflexivity.
     + cbn [bind]. rewrite (TAIL false). destruct (f_nulldummy fl && negb (is_nil dummy)); reflexivity.
 Qed.
+Lemma multisig_unparsed scriptIn r pb o rest vfy ops e :
+  let tmp := py_slice scriptIn pb (lenZ scriptIn) in
+  raw_iter tmp = (ops, Some e) -> Forall small (r_stack r) ->
+  ref_kind (sop_opcode o) = KMultisig vfy ->
+  sim1 (exec scriptIn (abs r pb) o (KMultisig vfy)) (exec_op (sop_opcode o) rest r) pb \/
+  exec scriptIn (abs r pb) o (KMultisig vfy) = Err e.
+Proof.
+  intros tmp E HS K. unfold ScriptRef.exec_op. rewrite K. unfold ScriptEval.exec. fold tmp.
+  unfold check_multisig, abs, sim1. cbn [stack altstack vfExec pbegincodehash nOpCount].
+  destruct r as [rs al vf sub nop]. cbn [r_stack r_alt r_vf r_sub r_nop with_stack] in *.
+  change MAX_SCRIPT_OPCODES with 201.
+  rewrite len_rev. destruct rs as [|nv r1].
+  { left; reflexivity. }
+  destruct (Z.ltb_spec (len (nv :: r1)) 1); [exfalso; lens|]. cbn [bind].
+  rewrite (py_nth_rev _ 1 nv) by (first [lia|reflexivity]). cbn [bind].
+  inversion HS as [|? ? Snv S1]; subst. unfold small in Snv.
+  rewrite (cast_to_bignum_ref nv) by lia. destruct (ref_num nv) as [n|] eqn:En; [|left; reflexivity]. cbn [bind].
+  destruct ((n <? 0) || (n >? 20)) eqn:Rn; [left; reflexivity|]. cbn [bind].
+  apply orb_false_iff in Rn as [Rn1 Rn2]. apply Z.ltb_ge in Rn1. rewrite Z.gtb_ltb in Rn2. apply Z.ltb_ge in Rn2.
+  destruct (nop + n >? 201); [left; reflexivity|]. cbn [bind].
+  assert (LS : len (nv :: r1) = lenZ r1 + 1) by (unfold len, lenZ; cbn [length]; lia). rewrite LS.
+  replace (1 + 1 + n) with (n + 2) by lia.
+  destruct (Z.ltb_spec (lenZ r1 + 1) (n + 2)) as [C1|C1]; destruct (Z.ltb_spec (lenZ r1) (n + 1)) as [C1'|C1']; try lia; [left; reflexivity|].
+  cbn [bind].
+  destruct (skipn (Z.to_nat n) r1) as [|mv r2] eqn:E2.
+  { exfalso. pose proof (f_equal (@length bytes) E2) as L. rewrite skipn_length in L. cbn [length] in L. unfold lenZ in *. lia. }
+  pose proof (skipn_cons_split r1 (Z.to_nat n) mv r2 E2) as L1. rewrite Z2Nat.id in L1 by lia.
+  rewrite (py_nth_rev (nv :: r1) (n + 2) mv).
+  2: lia.
+  2:{ replace (Z.to_nat (n + 2 - 1)) with (S (Z.to_nat n)) by lia. cbn [nth_error]. eapply nth_error_skipn_hd; exact E2. }
+  cbn [bind].
+  assert (S2 : Forall small (mv :: r2)) by (rewrite <- E2; now apply Forall_skipn).
+  inversion S2 as [|? ? Smv S2']; subst. unfold small in Smv.
+  rewrite (cast_to_bignum_ref mv) by lia. destruct (ref_num mv) as [m|] eqn:Em; [|left; reflexivity]. cbn [bind].
+  destruct ((m <? 0) || (m >? n)) eqn:Rm; [left; reflexivity|]. cbn [bind].
+  apply orb_false_iff in Rm as [Rm1 Rm2]. apply Z.ltb_ge in Rm1. rewrite Z.gtb_ltb in Rm2. apply Z.ltb_ge in Rm2.
+  replace (n + 2 + 1 + m - 1) with (n + m + 2) by lia. replace (n + 2 + 1 + m) with (n + m + 3) by lia.
+  destruct (Z.ltb_spec (lenZ r2) (m + 1)) as [C2|C2].
+  { destruct (Z.ltb_spec (lenZ r1 + 1) (n + m + 2)); [left; reflexivity|].
+    destruct (Z.ltb_spec (lenZ r1 + 1) (n + m + 3)); [left; reflexivity|lia]. }
+  destruct (Z.ltb_spec (lenZ r1 + 1) (n + m + 2)); [lia|]. destruct (Z.ltb_spec (lenZ r1 + 1) (n + m + 3)); [lia|].
+  cbn [bind].
+  destruct (skipn (Z.to_nat m) r2) as [|dummy r3] eqn:E3.
+  { exfalso. pose proof (f_equal (@length bytes) E3) as L. rewrite skipn_length in L. cbn [length] in L. unfold lenZ in *. lia. }
+  set (keys := firstn (Z.to_nat n) r1). set (sigs := firstn (Z.to_nat m) r2).
+  assert (Lk : lenZ keys = n) by (apply lenZ_firstn_full; lia).
+  assert (Lsg : lenZ sigs = m) by (apply lenZ_firstn_full; lia).
+  assert (Fsg : Forall small sigs) by (now apply Forall_firstn).
+  assert (SS : skipn (Z.to_nat (n + 2 + 1 - 1)) (nv :: r1) = sigs ++ dummy :: r3).
+  { replace (Z.to_nat (n + 2 + 1 - 1)) with (S (1 + Z.to_nat n)) by lia. rewrite skipn_S_cons.
+    rewrite <- skipn_skipn, E2. rewrite skipn_S_cons. cbn [skipn].
+    subst sigs. rewrite <- E3. symmetry. apply firstn_skipn. }
+  replace (Z.to_nat m) with (length sigs) by (unfold lenZ in Lsg; lia).
+  destruct sigs as [|sg sigs'] eqn:ESG.
+  2:{ (* at least one signature: FindAndDelete raises *)
+      right. fold tmp. assert (Fs : small sg) by (inversion Fsg; assumption).
+      cbn [length]. rewrite (ms_fad_err (nv :: r1) (n + 2 + 1) (dummy :: r3) sg sigs' tmp ops e ltac:(lia) SS Fs E). reflexivity. }
+  left. cbn [length ms_fad bind]. assert (Hm0 : m = 0) by (unfold lenZ in Lsg; cbn [length] in Lsg; lia).
+  cbn [ms_loop]. destruct (Z.gtb_spec m 0) as [G|G]; [lia|]. cbn [negb bind fold_left ms_walk].
+  (* the pops *)
+  assert (POP : pop_n (Z.to_nat (n + m + 2)) (rev (nv :: r1)) = Ok (rev (dummy :: r3))).
+  { rewrite pop_n_rev by (cbn [length]; unfold lenZ in *; lia). do 2 f_equal.
+    replace (Z.to_nat (n + m + 2)) with (S (S (Z.to_nat m) + Z.to_nat n)) by lia. rewrite skipn_S_cons.
+    rewrite <- skipn_skipn, E2. rewrite skipn_S_cons. exact E3. }
+  assert (TAIL : forall success : bool,
+    (do st1 <- pop_n (Z.to_nat (n + m + 2)) (rev (nv :: r1));
+     do _ <- (if negb (is_nil st1) && f_nulldummy fl then do d <- py_nth st1 (-1); if negb (bytes_eqb d []) then @fail unit else Ok tt else Ok tt);
+     do dr <- py_pop st1;
+     Ok {| stack := if negb vfy then if success then push (snd dr) [x01] else push (snd dr) [] else snd dr;
+           altstack := rev al; vfExec := rev vf; pbegincodehash := pb; nOpCount := nop + n |})
+    = if f_nulldummy fl && negb (is_nil dummy) then Err EvalErr
+      else Ok {| stack := rev (if negb vfy then of_bool success :: r3 else r3); altstack := rev al; vfExec := rev vf;
+                 pbegincodehash := pb; nOpCount := nop + n |}).
+  { intros success. rewrite POP. cbn [bind]. rewrite is_nil_rev_cons. cbn [negb andb].
+    destruct (f_nulldummy fl); cbn [andb bind].
+    - rewrite (py_nth_rev _ 1 dummy) by (first [lia|reflexivity]). cbn [bind]. rewrite bytes_eqb_nil.
+      destruct (is_nil dummy); cbn [negb bind]; [|reflexivity].
+      rewrite py_pop_rev. cbn [bind snd]. destruct vfy, success; cbn [negb]; rewrite ?push_rev; reflexivity.
+    - rewrite py_pop_rev. cbn [bind snd]. destruct vfy, success; cbn [negb]; rewrite ?push_rev; reflexivity. }
+  pose proof (TAIL true) as T. cbv beta iota in T. assert (W0 : ms_walk checksig [] keys (find_and_delete_ref sub [xab]) = true) by (destruct keys; reflexivity). rewrite W0, T. destruct (f_nulldummy fl && negb (is_nil dummy)); [reflexivity|].
+  destruct vfy; cbv beta iota; reflexivity.
+Qed.
 End Sig.
